@@ -66,6 +66,15 @@ CLAIMED = {
         "DESIGN.md §4 C08",
         "exploration",
     ),
+    "C13": (
+        "Hypothesis-generated transactional histories over three connections vs committed-store + pending-set model",
+        "Statement-level interleavings of BEGIN/DML/failing statements/COMMIT/ROLLBACK (SQL and API) on three connections with two "
+        "cursors each are generated (state-aware drawing keeps transactions overlapping) and every read is compared with a model of "
+        "committed states and pending sets; exploration of statement-level interleavings (thread-level ones are C19's).",
+        "Non-conflicting writes only; a reader inside a transaction may see any state committed since its BEGIN.",
+        "DESIGN.md §4 C13",
+        "exploration",
+    ),
 }
 
 NOT_YET = {}
